@@ -166,7 +166,10 @@ class SpectraStage(Stage):
 
 def _tau_pool(self):
     from nuspacesim.simulation.taus.taus import Taus
-    self.obj = Taus(make_config({}))
+    cfg = make_config({})
+    if getattr(self, "table_version", None):
+        cfg.simulation.tau_shower.table_version = str(self.table_version)
+    self.obj = Taus(cfg)
     n = self.n
     self.beta = np.radians(self.rng.uniform(1.0, 42.0, n))
     self.beta[0] = 0.0
@@ -201,6 +204,20 @@ class TauExit(Stage):
         keep = [b.copy(), le.copy()]
         p = self.obj.tau_exit_prob(b, le)
         return self.digest_outputs([p], len(idx)), _intact(keep, [b, le])
+
+
+class TauExitV1(TauExit):
+    """table version 1: the only shipped exit-probability table with non-positive cells (floored on use): the FIRST call on an object
+    must answer like every later one"""
+    name = "Taus.tau_exit_prob[table 1]"
+    table_version = 1
+
+    def setup(self):
+        _tau_pool(self)
+        # events next to the empty cells: high energy, large angle
+        k = self.n // 2
+        self.le[8:8 + k] = self.rng.uniform(8.6, 12.0, k)
+        self.beta[8:8 + k] = np.radians(self.rng.uniform(15.0, 41.9, k))
 
 
 class TausCall(Stage):
@@ -364,6 +381,6 @@ class RadioCall(Stage):
         return self.digest_outputs([ef, snr], len(idx)), _intact(keep + [efk], a + [ef])
 
 
-ALL = [GeomThrow, GeomCall, TooThrow, TooCall, SpectraStage, TauEnergy, TauExit, TausCall, TauInterleaved, CdfSampler,
+ALL = [GeomThrow, GeomCall, TooThrow, TooCall, SpectraStage, TauEnergy, TauExit, TauExitV1, TausCall, TauInterleaved, CdfSampler,
        Vec1dInterp, AltDec, EasCall, EasCallThreads, RadioCall]
 BY_NAME = {c.name: c for c in ALL}
